@@ -805,6 +805,16 @@ class Run(ExtraOps):
             lambda: t.rel.materialized(name) if name is not None else t.rel.materialized(),
             lambda rel: M.m_mat(t.mv, name), must_raise=must,
         )
+        if ent is not None and not ent.alias and ent.rel is t.rel:
+            # "already materialized": only markers that stay in one engine may lie between the relation and the leaf /
+            # materialization that holds the rows; past a Transfer nothing is cached and the upstream tree (transfer
+            # included) would be evaluated again by every consumer
+            n = t.rel
+            while isinstance(n, MarkerRelation) and not isinstance(n, Materialization):
+                if isinstance(n, Transfer):
+                    self.violate("materialization_elided", {"relation": str(t.rel)[:200]}, entry=ent)
+                    break
+                n = n.target
         if ent is not None:
             for n in walk(ent.rel):
                 if isinstance(n, Materialization):
@@ -818,7 +828,10 @@ class Run(ExtraOps):
         t = self.ref(op["t"])
         if t is None:
             return
-        self.factory(op, [t], lambda: SimMarker(target=t.rel), lambda rel: t.mv.derive(hist=("mark", t.mv.hist)))
+        cls = SimMarker
+        if op.get("pin"):
+            from .world import SimPinned as cls
+        self.factory(op, [t], lambda: cls(target=t.rel), lambda rel: t.mv.derive(hist=("mark", t.mv.hist)))
 
     def op_custom(self, op):
         """A user-defined unary operation (RowFilter / Reordering subclass) applied through UnaryOperation.apply."""
